@@ -20,7 +20,9 @@ EventsPerStep == 1000
 WorkBound(n, d) == 5000 + (EventsPerStep * ((2 * n) + 2) * (d + 1))
 
 \* peak memory allowed while decoding n octets: a constant plus a multiple of the input length
-MemBound(n, d) == 1000000 + (4096 * n * (d + 1))
+\* (the constant covers what depends on the type only: per.py formats a DecodeError that lists the 65 536 permitted
+\* values of a BMPString, 1.4 MB for a five-octet input; allocations driven by a length field start at 16 MiB)
+MemBound(n, d) == 8000000 + (4096 * n * (d + 1))
 
 \* input class of a known finding: a SEQUENCE OF / SET OF whose element can have an EMPTY encoding
 \* (NULL, single-value INTEGER, empty SEQUENCE, zero-size strings): the element count read from the
